@@ -754,10 +754,17 @@ pub fn run_history(c: &VCase, rec: &Rec, value_clauses: bool) -> Result<HistoryS
                             // what the borrower left behind). The vault is unusable afterwards, so the
                             // history ends here.
                             if loans.len() > 1 && e.contains("exceed the vault balance") {
-                                rec.known_or_fail(
-                                    "vault-nested-loan-fee-recovery",
-                                    format!("step {step}: loan transaction {loans:?} succeeded and left the vault with {e}"),
-                                )?;
+                                if value_clauses {
+                                    rec.known_or_fail(
+                                        "vault-nested-loan-fee-recovery",
+                                        format!("step {step}: loan transaction {loans:?} succeeded and left the vault with {e}"),
+                                    )?;
+                                } else {
+                                    // C07 judges the ledgers only, and the ledger is right (it holds both
+                                    // loans' fees); that the balance no longer covers it is the share-price
+                                    // / fees-received matter of C05 and C06, where it is a listed finding
+                                    rec.class("nested_loan_left_pending_above_balance_history_ends");
+                                }
                                 return Ok(st);
                             }
                             return Err(Fail::new(format!("step {step}: vault queries failed after a loan: {e}")));
@@ -878,7 +885,24 @@ pub fn run_history(c: &VCase, rec: &Rec, value_clauses: bool) -> Result<HistoryS
                     ok = true;
                     st.router_ok += 1;
                     rec.class(if nested.is_some() { "router_loan_nested_ok" } else { "router_loan_ok" });
-                    let after = vw.view().map_err(|e| Fail::new(format!("vault queries failed: {e}")))?;
+                    let after = match vw.view() {
+                        Ok(v) => v,
+                        Err(e) => {
+                            // same extreme form of the nested-loan fee recovery, through the router
+                            if nested.is_some() && e.contains("exceed the vault balance") {
+                                if value_clauses {
+                                    rec.known_or_fail(
+                                        "vault-nested-loan-fee-recovery",
+                                        format!("step {step}: nested router loans {loans:?} succeeded and left the vault with {e}"),
+                                    )?;
+                                } else {
+                                    rec.class("nested_loan_left_pending_above_balance_history_ends");
+                                }
+                                return Ok(st);
+                            }
+                            return Err(Fail::new(format!("step {step}: vault queries failed after a router loan: {e}")));
+                        }
+                    };
                     ensure!(
                         vw.w.bal(&vw.info, &vw.router) == 0,
                         "step {step}: the vault router kept {} of the loaned asset",
